@@ -607,3 +607,45 @@ def observe_field(fv, key, out, depth):
     out.append((key + ".Ok", "1" if ok else "0"))
     if ok:
         out.append((key + ".Read", fmt_value(None, fv.value())))
+
+
+# ---------------------------------------------------------------------------
+# logical equality (C20): both views must be Ok
+# ---------------------------------------------------------------------------
+
+def _float_of(bits, width):
+    import struct
+
+    if width == 32:
+        return struct.unpack("<f", struct.pack("<I", bits))[0]
+    return struct.unpack("<d", struct.pack("<Q", bits))[0]
+
+
+def fields_equal(fa, fb):
+    if isinstance(fa, StructView):
+        return views_equal(fa, fb)
+    if isinstance(fa, ArrayView):
+        n = fa.count()
+        if n != fb.count():
+            return False
+        return all(fields_equal(fa.element(i), fb.element(i)) for i in range(n))
+    va, vb = fa.value(), fb.value()
+    if fa.typ.kind == "Float":
+        return _float_of(va, fa.typ.bits) == _float_of(vb, fb.typ.bits)  # NaN != NaN
+    return va == vb
+
+
+def views_equal(a, b):
+    """Equals per cpp-reference: same fields present, present physical fields equal."""
+    for f in a.st.fields:
+        if f.is_virtual:
+            continue
+        ea, eb = a.exists(f), b.exists(f)
+        if ea is None or eb is None:
+            return False
+        if ea != eb:
+            return False
+        if ea:
+            if not fields_equal(a.field_view(f), b.field_view(f)):
+                return False
+    return True
